@@ -72,7 +72,7 @@ def alts48(tier):
         org=['23952', '24000', '49152', 'top'],        # 'top' = no -o option: ORG defaults to 65536-length
         start=['begin+1', 'last'],
         stack=['end-1', 'end+0', 'end+1', 'end+2', 'end+3', 'end+4', 'end+14', 'begin+1', 'begin+2', 'begin+3', '65535'],
-        clear=['begin-1', '24999'],
+        clear=['begin-1', '24999', '23952'],           # 23952 = the lowest usable address the man page gives for a 48K Spectrum
         begin=['org+1', 'mid'],
         end=['last', 'mid+1'],
         fmt=['pzx'],
@@ -382,7 +382,7 @@ def case_key(cfg):
 
 def tags_for(cfg, plan, bad):
     t = {'machine': cfg['machine'], 'kinds': sorted({k for k, _ in bad}), 'clear': plan['CLEAR'] is not None,
-         'fmt': plan['fmt'], 'screen': plan['screen'], 'input': plan['input']}
+         'clear_addr': plan['CLEAR'], 'fmt': plan['fmt'], 'screen': plan['screen'], 'input': plan['input']}
     if cfg['machine'] == '48':
         t['length'] = plan['E'] - plan['B']
         # STACK relative to the first address of the data block on the tape (bin2tap.run's `org`)
@@ -459,7 +459,7 @@ def run(tier, seed):
     meta = dict(
         rule='every configuration within {} deviations of the default 48K tape (15 bytes at 32768) over length {{1,2,3,15,256,4097{}}}, ORG '
              '{{23952,24000,32768,49152,65536-len}}, START {{BEGIN,BEGIN+1,last}}, STACK {{default, END+k for k in -1,0,1,2,3,4,14, BEGIN+1..3, 65535}}, '
-             'CLEAR {{none,BEGIN-1,24999}}, --begin {{none,ORG+1,mid}}, --end {{none,last,mid+1}}, tap/pzx, screen, binary/Z80 input; and of the default '
+             'CLEAR {{none,BEGIN-1,24999,23952}}, --begin {{none,ORG+1,mid}}, --end {{none,last,mid+1}}, tap/pzx, screen, binary/Z80 input; and of the default '
              '128K tape (--begin 32768 --clear BEGIN-50 --7ffd 16, six banks) over --begin {{24200,32768,49000}}, --end {{49152,BEGIN+15}}, CLEAR '
              '{{BEGIN-50,BEGIN-1,lowest usable}}, --loader, --banks (every subset of size <= 2, the full set, the empty selection), --7ffd '
              '{{0,1,7,16,17,23}}, START, tap/pzx, screen, binary/SZX input.  One evaluation = bin2tap.main + tap2sna.main + oracle; non-trivial = '
